@@ -98,7 +98,8 @@ def fcMachineReq (core : Core) : Machine FState FState Unit (Option FhArg) Out w
 inductive TErr | notFitted | value | type | other
   deriving DecidableEq, Repr
 
-inductive Method | transform | inverse | predict | predictProba
+/-- `inspect` = reading a fitted attribute out (a tuner's cv_results_ / best_params_ / best_score_) -/
+inductive Method | transform | inverse | predict | predictProba | inspect
   deriving DecidableEq, Repr
 
 /-- a concrete transformer / classifier / regressor: `P` parameters (random_state included, n_jobs
